@@ -55,4 +55,10 @@ PROPS = {
         quick=dict(runs=[dict(tests="^TestC08$", checks=250), dict(tests="^TestC08Table$", checks=1)], min_nontrivial=30),
         thorough=dict(runs=[dict(tests="^TestC08$", checks=800, shards=16, timeout=3000), dict(tests="^TestC08Table$", checks=1)], min_nontrivial=1000),
     ),
+    "C15": dict(
+        rule="histories over worlds whose ingresses assign TLS secrets to hosts (shared secrets, conflicting declarations for one host, wildcard and exact names, hosts listed only under spec.tls, absent / malformed secrets, --default-ssl-certificate unset / valid / dangling) with secret create / content rotation / delete and ingress changes; after every reconciliation, for every SNI of the alphabet (declared names, a sub-domain of the wildcard, a two-label sub-domain, an unknown name) the certificate the *running* simulated HAProxy serves (crt-list as loaded at the last reload, SNI lookup exact > one-label wildcard > default, PEM as loaded or committed through the socket) must be the one of the Secret declared by the first-created ingress listing the host, else the default. Non-trivial = a conflicting declaration was logged or a rotation was applied through the runtime API; distinct by digest.",
+        assumptions=["HAProxy SNI lookup: exact filter, then one-label wildcard filter, else the first crt-list line", "certificate identity = SHA-256 of the leaf DER; the auto-generated fake certificate is identified by its role"],
+        quick=dict(runs=[dict(tests="^TestC15$", checks=250)], min_nontrivial=15),
+        thorough=dict(runs=[dict(tests="^TestC15$", checks=800, shards=16, timeout=3000)], min_nontrivial=500),
+    ),
 }
